@@ -127,3 +127,93 @@ Theorem C17_naming_constants_are_the_sources :
 Proof. exact (naming_constants_bridge Extra.TN_transcript_prefix Extra.TN_novel_gene_prefix Extra.TN_nic_transcript_suffix Extra.TN_nnic_transcript_suffix
                 eq_refl eq_refl eq_refl eq_refl). Qed.
 Print Assumptions C17_naming_constants_are_the_sources.
+
+(* ================================================================== round 3: ids across chromosomes *)
+(* Every chromosome has its own worker: FeatureIdStorage(SimpleIDDistributor(), genedb, chr_id) and ExcludingIdDistributor(genedb,
+   chr_id) read the reference features of THEIR chromosome only.  Generated ids of different chromosomes never collide, for any
+   chromosome names (C17_*_injective above: "chr1" / "chr1.2" / "1_2" are all harmless, the number is the last resp. first field
+   and a decimal numeral contains neither '.' nor '_').  What remains is a generated id against a reference id that sits on
+   ANOTHER chromosome, which the worker never sees. *)
+From IQ Require Import IdsMulti.
+
+(* every exon id a chromosome's storage returns is an exon_id attribute of the reference on that chromosome or <chr of the key>.<n> *)
+Theorem C17_returned_exon_id_origin : forall chr fs ks j k v, nth_error ks j = Some k ->
+  nth_error (snd (run get_id (init_store chr fs) ks)) j = Some v ->
+  In v (ref_ids fs) \/ exists n, 0 < n /\ v = exon_id (key_chr k) n.
+Proof. exact returned_exon_id_origin. Qed.
+Print Assumptions C17_returned_exon_id_origin.
+
+(* exon ids issued on different chromosomes never coincide, provided (cross_clean) the reference itself does not repeat an exon_id
+   on the two chromosomes and no exon_id found on one of them is <the other chromosome>.<n>.  Nothing is asked of the names. *)
+Theorem C17_exon_ids_across_chromosomes : forall c1 c2 fs1 fs2 ks1 ks2 i j k1 k2 v,
+  c1 <> c2 -> cross_clean c1 c2 fs1 fs2 ->
+  nth_error ks1 i = Some k1 -> key_chr k1 = c1 -> nth_error ks2 j = Some k2 -> key_chr k2 = c2 ->
+  nth_error (snd (run get_id (init_store c1 fs1) ks1)) i = Some v ->
+  nth_error (snd (run get_id (init_store c2 fs2) ks2)) j = Some v -> False.
+Proof. exact exon_ids_across_chromosomes. Qed.
+Print Assumptions C17_exon_ids_across_chromosomes.
+(* cross_clean holds: without exon_id attributes; for an annotation written by IsoQuant (every exon_id on c is c.<n>); for foreign
+   ids (ENSE...) that the reference does not repeat across the two chromosomes *)
+Theorem C17_cross_clean_cases : forall c1 c2 fs1 fs2,
+  (ref_ids fs1 = [] -> ref_ids fs2 = [] -> cross_clean c1 c2 fs1 fs2) /\
+  (c1 <> c2 -> isoquant_made c1 fs1 -> isoquant_made c2 fs2 -> cross_clean c1 c2 fs1 fs2) /\
+  (no_generated_shape fs1 -> no_generated_shape fs2 -> (forall v, In v (ref_ids fs1) -> In v (ref_ids fs2) -> False) -> cross_clean c1 c2 fs1 fs2).
+Proof. intros c1 c2 fs1 fs2. split; [apply exon_ids_across_chromosomes_no_reference_ids|].
+  split; [apply exon_ids_across_chromosomes_isoquant_made|apply exon_ids_across_chromosomes_foreign_ids]. Qed.
+Print Assumptions C17_cross_clean_cases.
+(* both halves of cross_clean are needed: a reference that gives an exon of chrA the id "chrB.1" (injective per chromosome, no id
+   shared between the chromosomes) makes the worker of chrB issue chrB.1 for its first new exon; a reference that repeats ENSE7 on
+   chrA and chrB keeps both *)
+Theorem C17_exon_ids_across_chromosomes_without_cross_clean_refuted :
+  let fsA := [(100, 200, plus, Some (exon_id chrB 1))] in let fsB := [(500, 600, plus, Some ENSE7)] in
+  ref_injective fsA /\ ref_injective fsB /\ (forall v, In v (ref_ids fsA) -> In v (ref_ids fsB) -> False) /\
+  snd (run get_id (init_store chrA fsA) [(chrA, 100, 200, plus)]) = [exon_id chrB 1] /\
+  snd (run get_id (init_store chrB fsB) [(chrB, 700, 800, plus)]) = [exon_id chrB 1].
+Proof. exact exon_ids_cross_chromosome_refuted. Qed.
+Example C17_exon_ids_shared_reference_id_refuted :
+  snd (run get_id (init_store chrA [(100, 200, plus, Some ENSE7)]) [(chrA, 100, 200, plus)]) = [ENSE7] /\
+  snd (run get_id (init_store chrB [(100, 200, plus, Some ENSE7)]) [(chrB, 100, 200, plus)]) = [ENSE7].
+Proof. exact exon_ids_shared_reference_id_refuted. Qed.
+(* chromosome "chr1" issues the id "chr1.2", which is the NAME of chromosome "chr1.2" — whose ids are "chr1.2.1", "chr1.2.2", ... *)
+Example C17_dotted_chromosome_names_example :
+  snd (run get_id (init_store chr1 []) [(chr1, 10, 20, plus); (chr1, 30, 40, plus); (chr1, 50, 60, plus)]) = [exon_id chr1 1; exon_id chr1 2; exon_id chr1 3] /\
+  snd (run get_id (init_store chr1_2 []) [(chr1_2, 10, 20, plus); (chr1_2, 30, 40, plus)]) = [exon_id chr1_2 1; exon_id chr1_2 2] /\
+  exon_id chr1 2 = chr1_2 /\ exon_id chr1_2 1 = [99;104;114;49;46;50;46;49] /\ cross_clean chr1 chr1_2 [] [].
+Proof. exact dotted_chromosome_names. Qed.
+
+(* transcript and gene ids: an id built from a number issued on chromosome c occurs NOWHERE in the reference — on c because the
+   number is forbidden there, on the other chromosomes because ids of the generated shape sit on the chromosome they name
+   (home_ok; true of every annotation IsoQuant writes and of every annotation without such ids) *)
+Theorem C17_novel_ids_not_in_whole_reference : forall (ref:list (str * (list str * list str))) c genes transcripts v k x s,
+  NoDup (map fst ref) -> home_ok ref -> In (c, (genes, transcripts)) ref -> 0 <= v ->
+  In x (issue (forbidden_ids genes transcripts) v k) ->
+  forall c' g' t', In (c', (g', t')) ref -> ~ In (transcript_id x c s) t' /\ ~ In (novel_gene_id c x) g'.
+Proof. exact novel_ids_not_in_whole_reference. Qed.
+Print Assumptions C17_novel_ids_not_in_whole_reference.
+(* without home_ok: "transcript1.chrB.nic" and "novel_gene_chrB_2" annotated on chrA; the distributor of chrB forbids nothing and
+   issues 1, 2 (the distributor of chrA, which needs neither, forbids both) *)
+Theorem C17_novel_ids_without_home_ok_refuted :
+  let ref : list (str * (list str * list str)) := [(chrA, ([novel_gene_id chrB 2], [transcript_id 1 chrB true])); (chrB, ([], [ENST1]))] in
+  NoDup (map fst ref) /\ issue (forbidden_ids [] [ENST1]) 0 2 = [1; 2] /\
+  In (transcript_id 1 chrB true) [transcript_id 1 chrB true] /\ In (novel_gene_id chrB 2) [novel_gene_id chrB 2] /\
+  forbidden_ids [novel_gene_id chrB 2] [transcript_id 1 chrB true] = [2; 1].
+Proof. exact novel_ids_cross_chromosome_refuted. Qed.
+
+(* the ids of a whole output file, all chromosomes (this is the hypothesis of C03_transcript_ids_once_per_file): reference
+   transcript ids + the novel transcript ids of every chromosome are pairwise distinct; novel gene ids are pairwise distinct and
+   none is a reference gene id.  A `world` lists, per chromosome, its reference gene / transcript ids and what model construction
+   asks of its distributor (Ids.allocate), starting from 0 *)
+Theorem C17_extended_file_ids_unique : forall (w:list (str * (list str * list str) * list alloc)),
+  NoDup (map (fun e => fst (fst e)) w) -> home_ok (w_ref w) -> NoDup (ref_tids w) ->
+  NoDup (ref_tids w ++ concat (map w_novel_tids w)) /\
+  NoDup (concat (map w_novel_gids w)) /\ (forall g, In g (concat (map w_novel_gids w)) -> ~ In g (ref_gids w)).
+Proof. exact extended_file_ids_unique. Qed.
+Print Assumptions C17_extended_file_ids_unique.
+Example C17_extended_file_ids_example :
+  let w : list (str * (list str * list str) * list alloc) :=
+      [(chrA, ([novel_gene_id chrA 2], [ENST1; transcript_id 1 chrA true]), [WithRefGene true; WithNovelGene false]);
+       (chrB, ([], [transcript_id 1 chrB false]), [WithNovelGene true])] in
+  home_ok (w_ref w) /\ NoDup (map (fun e => fst (fst e)) w) /\ NoDup (ref_tids w) /\
+  concat (map w_novel_tids w) = [transcript_id 3 chrA true; transcript_id 4 chrA false; transcript_id 2 chrB true] /\
+  concat (map w_novel_gids w) = [novel_gene_id chrA 5; novel_gene_id chrB 3].
+Proof. exact extended_file_ids_example. Qed.
